@@ -294,6 +294,7 @@ pub struct BtcNet {
     pub network: Network,
     pub blocks: BTreeMap<usize, NetBlock>,
     pub by_hash: BTreeMap<Hash32, usize>,
+    pub children: BTreeMap<usize, Vec<usize>>,
     pub wallet: Wallet,
     pub real_pow: bool,
 }
@@ -329,6 +330,7 @@ impl BtcNet {
             network,
             blocks,
             by_hash,
+            children: BTreeMap::new(),
             wallet,
             real_pow: network == Network::Regtest,
         }
@@ -339,11 +341,7 @@ impl BtcNet {
     }
 
     pub fn children_of(&self, id: usize) -> Vec<usize> {
-        self.blocks
-            .values()
-            .filter(|b| b.parent == Some(id))
-            .map(|b| b.id)
-            .collect()
+        self.children.get(&id).cloned().unwrap_or_default()
     }
 
     /// Chain genesis ..= id as block ids.
@@ -746,6 +744,7 @@ impl BtcNet {
             refs,
         };
         self.by_hash.insert(hash, spec.id);
+        self.children.entry(spec.parent).or_default().push(spec.id);
         self.blocks.insert(spec.id, nb);
         Some(spec.id)
     }
